@@ -29,7 +29,7 @@ func convertStringIndex(rawIndex any, s string) (int, int, error) {
 	}
 	// Not slice
 	r, size := utf8.DecodeRuneInString(s[index.Lower:])
-	if r == utf8.RuneError {
+	if isDecodeError(r, size) {
 		return 0, 0, errIndexNotAtRuneBoundary
 	}
 	return index.Lower, index.Lower + size, nil
@@ -39,14 +39,20 @@ func startsWithRuneBoundary(s string) bool {
 	if s == "" {
 		return true
 	}
-	r, _ := utf8.DecodeRuneInString(s)
-	return r != utf8.RuneError
+	return !isDecodeError(utf8.DecodeRuneInString(s))
 }
 
 func endsWithRuneBoundary(s string) bool {
 	if s == "" {
 		return true
 	}
-	r, _ := utf8.DecodeLastRuneInString(s)
-	return r != utf8.RuneError
+	return !isDecodeError(utf8.DecodeLastRuneInString(s))
+}
+
+// isDecodeError reports whether the return values of one of the utf8.Decode*
+// functions signal invalid UTF-8. A successfully decoded U+FFFD (which has the
+// same value as utf8.RuneError) is 3 bytes wide, while a decoding error always
+// has a width of 0 or 1.
+func isDecodeError(r rune, size int) bool {
+	return r == utf8.RuneError && size <= 1
 }
